@@ -338,8 +338,9 @@ def fam_mix(rng, tier):
     g.func("shifts", "i64, i64:a, i64:n", ["local i64:r, i64:t", "lsh r, a, n", "ursh t, a, n", "xor r, r, t", "rsh t, a, 7", "add r, r, t", "urshs t, a, 3", "uext32 t, t", "add r, r, t", "ret r"], n="0..63")
     g.func("divmod", "i64, i64:a, i64:b", ["local i64:q, i64:r", "udiv q, a, b", "umod r, a, b", "add q, q, r", "ret q"], b="1..1000", heavy="1", tier="thorough")
     g.func("mul3", "i64, i64:a, i64:b", ["local i64:r", "mul r, a, %d" % rng.choice([3, 5, 9, 24, 1000]), "muls b, b, 16", "ext32 b, b", "add r, r, b", "ret r"], heavy="1")
-    # 32-bit multiply by 2^32 with a symbolic operand: known strength-reduction defect at -O2/-O3 (C02 gen.O2.i3_MULS_imm4294967296)
-    g.func("muls_pow2_32", "i32, i64:a", ["local i64:r", "muls r, a, 4294967296", "ret r"], tier="thorough")
+    # 32-bit multiply by 2^32 with a symbolic operand: regression case of the strength-reduction defect found by C02
+    # gen.O2.i3_MULS_imm4294967296 (repaired in /repo 30843c6d: -O2/-O3 emitted shl eax,32)
+    g.func("muls_pow2_32", "i32, i64:a", ["local i64:r", "muls r, a, 4294967296", "ret r"])
     g.func("ld_arith", "ld, ld:x, ld:y", ["local ld:r", "ldadd r, x, y", "ldneg r, r", "ret r"], fp="1", tier="thorough")
     return g
 
